@@ -207,6 +207,9 @@ def passiveTorqueAngle (angleAtZeroTorque angleAtOneNormTorque stiffnessAtLowTor
   let c := scaleCurviness curviness
   if !(absα stiffnessAtOneNormTorque > rootEPS) then none
   let delta0 := minα ((1/10)*(1-absα (1/stiffnessAtOneNormTorque))) ((5/100)*absα (x1-x0))
+  -- |stiffnessAtOneNormTorque| ≤ 1 is admissible for angle ranges wider than 1.1 rad: the first
+  -- expression is then not positive (the toe section would run backwards)
+  let delta0 := if delta0 ≤ 0 then (5/100)*absα (x1-x0) else delta0
   let delta := if stiffnessAtOneNormTorque < 0 then delta0 * (-1) else delta0
   let xLow := angleAtZeroTorque + delta
   let xFoot := angleAtZeroTorque + (1/2)*(xLow-angleAtZeroTorque)
